@@ -130,11 +130,18 @@ class VCSStrategyGit(VCSStrategy):
         # The final element may be an empty string. Filter it.
         submodule_entries = [
             entry
-            for entry in result.stdout.decode("utf-8").split("\0")
+            for entry in os.fsdecode(result.stdout).split("\0")
             if entry
         ]
         # Each entry looks a little like 'submodule.submodule.path\nmy_path'.
-        return {Path(entry.splitlines()[1]) for entry in submodule_entries}
+        # A key that has no value, or an empty one, does not name a path.
+        return {
+            Path(value)
+            for _, _, value in (
+                entry.partition("\n") for entry in submodule_entries
+            )
+            if value
+        }
 
     def is_ignored(self, path: StrPath) -> bool:
         path = relative_from_root(path, self.root)
